@@ -151,7 +151,7 @@ def c19_2(ctx):
     sym.against_reference(ctx, ctx.func(BLOOM, "BloomFilter.set_bit"), _ref(), "bloom_set_bit", "bloom-set", ints)
     sym.against_reference(ctx, ctx.func(BLOOM, "BloomFilter.check_bit"), _ref(), "bloom_check_bit", "bloom-check", ints)
     cv = ctx.interp.get(ctx.p.module(BLOOM).name, "BloomFilter")
-    ctx.check(ctx.interp.getattr(cv, "MASK_ARRAY") == [1, 2, 4, 8, 16, 32, 64, 128], "bloom-masks", "%s:1" % BLOOM, "MASK_ARRAY is not [1<<i]")
+    ctx.check(ctx.interp.getattr(cv, "MASK_ARRAY") == [1, 2, 4, 8, 16, 32, 64, 128], "bloom-masks", "%s:1" % BLOOM, "MASK_ARRAY is %s, not [1<<i]" % (repr(ctx.interp.getattr(cv, "MASK_ARRAY"))[:80],))
 
 
 # ------------------------------------------------------------------ C19.4
